@@ -21,12 +21,13 @@ class Unbounded(Exception):
 
 
 class Path:
-    __slots__ = ("out", "pc", "dom", "boundary", "decisions", "exc", "unknown_feas", "selectors", "_domseen")
+    __slots__ = ("out", "pc", "dom", "oblig", "boundary", "decisions", "exc", "unknown_feas", "selectors", "_domseen")
 
     def __init__(self):
         self.out = None
         self.pc = []  # list of conditions (terms.T or z3 BoolRef) decided on this path
         self.dom = []  # definedness / domain conditions collected while executing
+        self.oblig = []  # the subset of `dom` that constrains the INPUTS (denominator != 0, log argument > 0, ...), not facts about UFs
         self.boundary = []  # equality atoms taken (non-differentiable boundary)
         self.decisions = []
         self.exc = None
@@ -76,12 +77,15 @@ class Engine:
             cond = cond.t
         self._take(cond)
 
-    def domain(self, cond):
-        """definedness condition met while executing (denominator != 0, log argument > 0 ...)"""
+    def domain(self, cond, fact=False):
+        """definedness condition met while executing (denominator != 0, log argument > 0 ...); fact=True: a true statement about an
+        uninterpreted function (exp > 0, sqrt >= 0), recorded to help feasibility, not an obligation on the inputs"""
         if cond.op == "true" or cond.uid in self.path._domseen:
             return
         self.path._domseen.add(cond.uid)
         self.path.dom.append(cond)
+        if not fact:
+            self.path.oblig.append(cond)
         self.solver.add(self._z3(cond))
 
     # ------------------------------------------------------------------ decisions
